@@ -80,6 +80,13 @@ def opFlush : List LAct := [.acq ⟨1, .wr⟩ true, .acq ⟨2, .wr⟩ true]
 def opRotate : List LAct := [.acq ⟨0, .wr⟩ true, .acq ⟨1, .rd⟩ false, .rel 1, .acq ⟨2, .wr⟩ true]
 def opCompact : List LAct := [.acq ⟨1, .wr⟩ true, .acq ⟨2, .wr⟩ true]
 
+/-- `LsmCommitEnv::apply`: the batch is added to the active memtable under its read lock -/
+def opCommit : List LAct := [.acq ⟨0, .rd⟩ true, .rel 0]
+/-- a rotation followed by the flush of the two pending immutable memtables (what the rotating committer and
+the background flush task do one after the other) -/
+def opRotFlush : List LAct := opRotate ++ [.rel 0, .rel 2] ++ opFlush ++ [.rel 1, .rel 2] ++ opFlush
+
 def opByName (n : String) : Option (List LAct) :=
+  if n == "commit" then some opCommit else if n == "rotflush" then some opRotFlush else
   if n == "iter" then some opIter else if n == "flush" then some opFlush
   else if n == "rotate" then some opRotate else if n == "compact" then some opCompact else none
